@@ -72,6 +72,13 @@ func c06Apply(r *verifRig, m *Message, d c06Defects, T int) (S int, sReadable bo
 		m.Header.Remove(tagSendingTime)
 	case 4:
 		m.Header.SetString(tagSendingTime, "garbage")
+	case 5:
+		// centuries ahead: the difference to the clock no longer fits a time.Duration
+		sent = time.Date(sent.Year()+400, time.March, 1, 12, 0, 0, 0, time.UTC)
+		m.Header.SetField(tagSendingTime, FIXUTCTimestamp{Time: sent})
+	case 6:
+		sent = time.Date(sent.Year()-400, time.March, 1, 12, 0, 0, 0, time.UTC)
+		m.Header.SetField(tagSendingTime, FIXUTCTimestamp{Time: sent})
 	}
 	S, sReadable = T, true
 	switch d.d34 {
@@ -134,7 +141,7 @@ func c06Expect(d c06Defects, recovering, latencyOff bool, validatorRejects bool)
 			return c06PlainReject, 1, 52
 		case 4:
 			return c06PlainReject, 6, 52
-		case 1, 2:
+		case 1, 2, 5, 6:
 			return c06RejectThenLogout, 10, 0
 		}
 	}
@@ -199,7 +206,7 @@ func VerifHarness_C06_gate() {
 		case 1:
 			d.dcomp = verifConc(ndInt("defect-compid", 0, 6))
 		case 2:
-			d.d52 = verifConc(ndInt("defect-52", 0, 4))
+			d.d52 = verifConc(ndInt("defect-52", 0, 6))
 		case 3:
 			d.d34 = verifConc(ndInt("defect-34", 0, 5))
 			d.possDup = d.d34 == 1 && ndBool("possdup")
@@ -320,7 +327,7 @@ func VerifHarness_C06_logon() {
 	case 1:
 		d.dcomp = verifConc(ndInt("defect-compid", 0, 6))
 	case 2:
-		d.d52 = verifConc(ndInt("defect-52", 0, 4))
+		d.d52 = verifConc(ndInt("defect-52", 0, 6))
 	}
 	m := r.inbound("A", T)
 	c06Apply(r, m, d, T)
